@@ -167,6 +167,17 @@ func init() {
 		Old: "		c.write(bb, res)\n	}\n\n	return bb.String(), nil", New: "		c.write(bb, res)\n		if _, ok := stmt.(*ast.ReturnStatement); ok && len(c.program.Statements) == 1 {\n			c.write(bb, res)\n		}\n	}\n\n	return bb.String(), nil", Expect: "R1"})
 	addMutant(Mutant{Name: "literal-text-trimmed", Prop: "C02", File: "compiler.go",
 		Old: "				res = template.HTML(h.Value)", New: "				res = template.HTML(strings.TrimRight(h.Value, \" \"))", Expect: "R3"})
+	addMutant(Mutant{Name: "bstring-honours-backslash-escape", Prop: "C02", File: "lexer/lexer.go",
+		Old: "		l.readChar()\n		if l.ch == '`' {\n			break\n		}", New: "		l.readChar()\n		if l.ch == '\\\\' && l.peekChar() == '`' {\n			l.readChar()\n			l.readChar()\n		}\n		if l.ch == '`' {\n			break\n		}", Expect: "R6"})
+	addMutant(Mutant{Name: "string-escape-skips-any-char", Prop: "C02", File: "lexer/lexer.go",
+		Old: "		if l.ch == '\\\\' && l.peekChar() == '\"' {", New: "		if l.ch == '\\\\' {", Expect: "R6"})
+	addMutant(Mutant{Name: "bstring-unescapes", Prop: "C02", File: "lexer/lexer.go",
+		Old: "	s := l.input[position:l.position]\n	return s\n}", New: "	s := l.input[position:l.position]\n	return strings.Replace(s, \"\\\\\\\"\", \"\\\"\", -1)\n}", Expect: "R6"})
+	addMutant(Mutant{Name: "string-not-unescaped", Prop: "C02", File: "lexer/lexer.go",
+		Old: "	return strings.Replace(s, \"\\\\\\\"\", \"\\\"\", -1)", New: "	return s", Expect: "R6"})
+	addMutant(Mutant{Name: "equiv-string-scanners-merged", Prop: "C02", File: "lexer/lexer.go", Equivalent: true,
+		Old: "func (l *Lexer) readBString() string {\n	position := l.position + 1\n	for l.ch != 0 {\n		l.readChar()\n		if l.ch == '`' {\n			break\n		}\n	}\n	s := l.input[position:l.position]\n	return s\n}",
+		New: "func (l *Lexer) readBString() string {\n	return l.readRaw('`')\n}\n\nfunc (l *Lexer) readRaw(q byte) string {\n	start := l.position\n	for {\n		if l.ch == 0 {\n			break\n		}\n		l.readChar()\n		if q == l.ch {\n			break\n		}\n	}\n	return l.input[start+1 : l.position]\n}"})
 	// ---- C17 ----
 	addMutant(Mutant{Name: "block-rendered-twice", Prop: "C17", File: "helper_context.go",
 		Old: "	bb := &strings.Builder{}\n	h.compiler.write(bb, i)\n", New: "	bb := &strings.Builder{}\n	h.compiler.write(bb, i)\n	if bb.Len() == 0 {\n		h.compiler.write(bb, i)\n	}\n", Expect: "R1"})
